@@ -16,6 +16,12 @@ CHECKS = {
  "C04": dict(technique="differential PBT against an independent reference executor over generated schemas, operations, worlds and request histories",
              text="Generated schema specs, valid-by-construction operations, variable payloads and deterministic resolver worlds are executed through five entry points in drawn histories on one schema object; ordered data and the error multiset (path, resolver message/extensions, location) must equal the reference executor's.",
              note="Trusted: vlib/ref/exec.py + vlib/ref/parser.py (goldens); argument zones left to C07 are not generated.", ref="3/C04"),
+ "C05": dict(technique="PBT with AST-level adversarial mutation; crash oracle + differential execution against reference executor and reference merge rule",
+             text="Valid, mutated (20 labelled AST mutations) and grammar-random documents are validated with and without locations: any exception is a violation; documents the library validates are executed through both executor classes with generated accepted variables: no exception, no ambiguous response key (reference FieldsInSetCanMerge), data equal to the reference executor.",
+             note="Trusted: vlib/ref/validate.py, vlib/ref/exec.py (goldens). Unspecified zones: __schema/__type sub-selections, missing root types, unset variables nested in literals, non-string literals for custom scalars.", ref="3/C05"),
+ "C06": dict(technique="two-way differential PBT against a reference validator (26 June-2018 rules) + per-rule attribution + metamorphic verdict invariance",
+             text="Valid-by-construction documents must validate; mutated documents are judged by a reference validator written from the specification and the verdicts must agree in both directions; a single broken rule must be reported by that rule's checker alone; nine validity-preserving transformations must not change the verdict.",
+             note="Trusted: vlib/ref/validate.py (goldens), transformation code in vlib/gen/metamorph.py. A rule violation family the mutators never produce stays unexamined (per-rule counters in the evidence).", ref="3/C06"),
 }
 ALL = ["C%02d" % i for i in range(1, 21)]
 NA_REASON = "check not built yet (work in progress; see DESIGN.md section 3 for the planned design)"
